@@ -1046,8 +1046,10 @@ pub fn model_case(acc: &mut Acc, reg: &Registry, prop: &str, s: &dyn Subject, ca
     let run = run_case(s, &case.payload, src, Script::Continue);
     account(acc, s, case, &run);
     if matches!(run.outcome, Outcome::Panic(_)) {
-        acc.count("panics_seen_(reported_by_C12)");
-        return run;
+        acc.count("panics_seen_(reported_by_C12_too)");
+        if !a.value {
+            return run;
+        }
     }
     if let Some(d) = model_check(reg, s, &case.payload, src, &run, a) {
         let at = ctor_at(reg, s, &case.payload, &d.loc);
